@@ -13,6 +13,13 @@ Suites
             MeasurementResult accessors as a state machine over accessor histories
   collapse  collapse_state / collapse_density_matrix, collapsing M (recorded bit order),
             circuits with mid-circuit collapse, conditioned gates, repeated execution
+  add       Circuit.add measurement bookkeeping (register names, duplicate rejection, terminal ->
+            collapsing conversion, measurement_tuples) against QV/Model/CircuitAdd.lean and a python SPEC
+  repeated  execute_circuit_repeated: reported rows, per-gate samples, frequencies, sampler call
+            count and the probabilities given to the sampler at every draw (QV/Model/Repeated.lean)
+  probh     probabilities(qs) in permuted orders mixed with samples()/frequencies() on results
+            without a final state (noise / collapse / samples=) (QV/Model/MeasureProbs.lean)
+  batching  sample_frequencies at exact multiples of SHOT_BATCH_SIZE, patched and TRUE constant
   search    unpatched sampler: support, sums, histogram consistency (direct property search)
 """
 from __future__ import annotations
@@ -45,11 +52,13 @@ class OracleBackend(NumpyBackend):
         super().__init__()
         self.chooser = chooser
         self.calls = []
+        self.asked = []
 
     def sample_shots(self, probabilities, nshots):
         p = np.asarray(probabilities, dtype=float).ravel()
         out = [int(x) for x in self.chooser(p, int(nshots))]
         self.calls.append(out)
+        self.asked.append(p.copy())
         return np.array(out, dtype=np.int64)
 
 
@@ -434,6 +443,250 @@ def check_sampler(n, regs, psi, dm, nshots, seed, first):
     if not np.allclose(pr, marg, atol=1e-9):
         return "probabilities(measured qubits) differ from the Born marginal"
     return None
+
+
+# ---- Circuit.add bookkeeping ------------------------------------------------------------
+
+def mk_gate(kind, qs):
+    """an ordinary (non-measurement) gate acting exactly on the qubits qs."""
+    qs = list(qs)
+    if kind == "H":
+        return gates.H(*qs)
+    if kind == "RX":
+        return gates.RX(qs[0], theta=0.3)
+    if kind == "noise":
+        return gates.PauliNoiseChannel(qs[0], [("X", 0.1)])
+    if kind == "CNOT":
+        return gates.CNOT(*qs)
+    if kind == "CZ":
+        return gates.CZ(*qs)
+    if kind == "SWAP":
+        return gates.SWAP(*qs)
+    if kind == "TOFFOLI":
+        return gates.TOFFOLI(*qs)
+    if kind == "ctrl":  # X on the last qubit controlled by the others (given unsorted)
+        return gates.X(qs[-1]).controlled_by(*qs[:-1])
+    if kind == "U":
+        return gates.Unitary(np.eye(2 ** len(qs)), *qs)
+    return gates.X(qs[0])
+
+
+def mk_meas(it):
+    _, ts, name, collapse, basis = it
+    kw = {}
+    if name is not None:
+        kw["register_name"] = name
+    if collapse:
+        kw["collapse"] = True
+    if set(basis) != {"Z"}:
+        bmap = {"Z": gates.Z, "X": gates.X, "Y": gates.Y}
+        kw["basis"] = [bmap[b] for b in basis]
+    return gates.M(*ts, **kw)
+
+
+def observe_add(n, items):
+    """add the items to a fresh circuit; report the bookkeeping at API level."""
+    c = Circuit(n)
+    err = None
+    for k, it in enumerate(items):
+        g = mk_gate(it[1], it[2]) if it[0] == "G" else mk_meas(it)
+        try:
+            c.add(g)
+        except KeyError:
+            err = k
+            break
+    queue = []
+    for g in c.queue:
+        if isinstance(g, gates.M):
+            queue.append("M:%s:%s:%d" % (",".join(map(str, g.target_qubits)), g.register_name, int(bool(g.collapse))))
+        else:
+            queue.append("G:%s" % ",".join(map(str, sorted(g.qubits))))
+    pos = []
+    for m in c.measurements:
+        pos.append(next((i for i, g in enumerate(c.queue) if g is m), -1))
+    if err is not None:
+        return "ERR %d | %s" % (err, _s(pos))
+    tup = " ".join("%s=%s" % (k_, ",".join(map(str, v))) for k_, v in c.measurement_tuples.items())
+    return "%s | %s | %d | %s" % (" ".join(queue), _s(pos), int(bool(c.has_collapse)), tup)
+
+
+def spec_add(items):
+    """python SPEC of the bookkeeping, written with 'later gate on one of its qubits'."""
+    flat = []
+    src = []
+    for k, it in enumerate(items):
+        if it[0] == "G":
+            flat.append(("G", sorted(it[2]))); src.append(k)
+        else:
+            for q, b in zip(it[1], it[4]):
+                if b != "Z":
+                    flat.append(("G", [q])); src.append(k)
+            flat.append(("M", list(it[1]), it[2], bool(it[3]))); src.append(k)
+
+    def final_in(prefix_len, i):
+        it = flat[i]
+        return it[0] == "M" and not it[3] and not any(f[0] == "G" and set(f[1]) & set(it[1]) for f in flat[i + 1:prefix_len])
+
+    names = {}
+    nm = 0
+    for j, it in enumerate(flat):
+        if it[0] != "M":
+            continue
+        if it[2] is None:
+            names[j] = "register%d" % nm
+        else:
+            if any(final_in(j, i) and names[i] == it[2] for i in names):
+                return "ERR %d | %s" % (src[j], _s([i for i in names if final_in(j, i)]))
+            names[j] = it[2]
+        nm += 1
+    L = len(flat)
+    fin = [i for i in range(L) if final_in(L, i)]
+    queue = []
+    for i, it in enumerate(flat):
+        if it[0] == "G":
+            queue.append("G:%s" % ",".join(map(str, it[1])))
+        else:
+            queue.append("M:%s:%s:%d" % (",".join(map(str, it[1])), names[i], int(i not in fin)))
+    d = {}
+    for i in fin:
+        d[names[i]] = flat[i][1]
+    tup = " ".join("%s=%s" % (k_, ",".join(map(str, v))) for k_, v in d.items())
+    hc = any(it[0] == "M" and i not in fin for i, it in enumerate(flat))
+    return "%s | %s | %d | %s" % (" ".join(queue), _s(fin), int(hc), tup)
+
+
+# ---- execute_circuit_repeated ------------------------------------------------------------
+
+def plan_status(plan):
+    """which measurements of a plan end up collapsing (SPEC of Circuit.add)."""
+    touched = [set(it[2]) if it[0] == "G" else {it[3]} if it[0] == "C" else None for it in plan]
+    out = []
+    for i, it in enumerate(plan):
+        if it[0] == "M":
+            later = set()
+            for g in touched[i + 1:]:
+                if g:
+                    later |= g
+            out.append(bool(it[2]) or bool(set(it[1]) & later))
+    return out
+
+
+def run_repeated(n, dm, plan, psi, nshots, chooser):
+    """execute the plan on the real code; report what the caller can observe, in the format of
+    DriverC03 REP: rows | per-M samples | dense frequencies | (draw log) ."""
+    c = Circuit(n, density_matrix=dm)
+    handles = []
+    for it in plan:
+        if it[0] == "G":
+            c.add(gates.Unitary(np.array(it[1], dtype=complex), *it[2], check_unitary=False))
+        elif it[0] == "M":
+            handles.append(c.add(gates.M(*it[1], collapse=True) if it[2] else gates.M(*it[1])))
+        else:
+            c.add(gates.RX(it[3], theta=np.pi * handles[it[1]].symbols[it[2]]))
+    status = plan_status(plan)
+    mts = [it[1] for it in plan if it[0] == "M"]
+    fq = [q for ts, st in zip(mts, status) if not st for q in ts]
+    be = OracleBackend(chooser)
+    psi = np.asarray(psi, dtype=complex)
+    init = np.outer(psi, psi.conj()) / np.vdot(psi, psi).real if dm else psi / np.linalg.norm(psi)
+    res = be.execute_circuit(c, initial_state=init.copy(), nshots=nshots)
+
+    def bits(row):
+        return "".join(str(int(b)) for b in np.asarray(row).reshape(-1))
+
+    if fq:
+        rows = np.asarray(res.samples())
+        if rows.shape != (nshots, len(fq)):
+            return "malformed: samples shape %r" % (rows.shape,), be
+        rows_s = " ".join(bits(r) for r in rows)
+        fr = _s(_dense(res.frequencies(binary=False), len(fq), False))
+        frb = _s(_dense(res.frequencies(binary=True), len(fq), True))
+        if fr != frb:
+            return "malformed: binary/decimal frequencies differ", be
+    else:
+        rows_s, fr = "-", "0"
+    caches = []
+    for h_, ts, st in zip(handles, mts, status):
+        raw = h_.samples()
+        a = [bits(r) for r in raw]
+        if any(len(x) != len(ts) for x in a):
+            return "malformed: gate samples %r" % (a,), be
+        caches.append(",".join(a) if a else "e")
+    return "%s | %s | %s" % (rows_s, " ".join(caches), fr), be
+
+
+# ---- probabilities() of results without a final state ----------------------------------------
+
+def canon_counts(p, nshots, m):
+    a = np.asarray(p, dtype=float).reshape(-1)
+    if a.shape != (2 ** m,):
+        return "malformed: shape %r" % (a.shape,)
+    cnt = a * nshots
+    r = np.rint(cnt)
+    if not np.allclose(cnt, r, atol=1e-6):
+        return "malformed: %r is not a multiple of 1/%d" % (a.tolist(), nshots)
+    return _s(r)
+
+
+def empirical_counts(rows, flat, qs):
+    """SPEC: number of reported rows whose bits on qs (in that order) spell each outcome."""
+    out = [0] * (2 ** len(qs))
+    for row in rows:
+        k = 0
+        for q in qs:
+            k = 2 * k + int(row[flat.index(q)])
+        out[k] += 1
+    return out
+
+
+def build_shotwise(n, regs, kind):
+    """a circuit that is simulated shot by shot and ends with the registers `regs`."""
+    c = Circuit(n)
+    for q in range(n):
+        c.add(gates.RY(q, theta=0.4 + 0.7 * q))
+    if n > 1:
+        c.add(gates.CNOT(0, n - 1))
+    flat = [q for r in regs for q in r]
+    if kind == "noise":
+        c.add(gates.PauliNoiseChannel(flat[0], [("X", 0.3)]))
+    else:
+        other = [q for q in range(n) if q not in flat]
+        cq = other[0] if other else flat[-1]
+        c.add(gates.M(cq, collapse=True))
+        c.add(gates.H(cq))
+    handles = [c.add(gates.M(*r)) for r in regs]
+    return c, handles
+
+
+def run_probs_history(n, regs, kind, nshots, ops, chooser):
+    """history of accessor calls incl. probabilities(qs) on a shot-by-shot result (kind noise /
+    collapse) or on MeasurementOutcomes(samples=...) (kind 'given')."""
+    from qibo.result import MeasurementOutcomes
+    flat = [q for r in regs for q in r]
+    c, handles = build_shotwise(n, regs, "collapse" if kind == "given" else kind)
+    be = OracleBackend(chooser)
+    res = be.execute_circuit(c, nshots=nshots)
+    if kind == "given":
+        res = MeasurementOutcomes(c.measurements, backend=be, samples=np.asarray(res.samples()).copy(), nshots=nshots)
+    names = [m.register_name for m in c.measurements]
+    outs = []
+    for op in ops:
+        if op[0] == "probs":
+            outs.append(canon_counts(res.probabilities(list(op[1])), nshots, len(op[1])))
+        else:
+            outs.append(canon(op, call_op(op, res, handles), regs, names, nshots))
+    rows = np.asarray(res.samples())
+    return outs, [[int(b) for b in r] for r in rows], be.calls
+
+
+def spec_probs_history(regs, rows, ops):
+    flat = [q for r in regs for q in r]
+    T = [int("".join(map(str, r)), 2) for r in rows]
+    base = spec_views(regs, T, [o for o in ops])
+    out = []
+    for op, b in zip(ops, base):
+        out.append(_s(empirical_counts(rows, flat, op[1])) if op[0] == "probs" else b)
+    return out
 '''
 
 H = {}
@@ -1322,6 +1575,471 @@ def collapse_suite(ctx):
     ctx.ob("C03_corr_collapse", bad == 0, "correspondence", f"{bad} disagreements" if bad else "")
 
 
+
+# ---------------------------------------------------------------------------
+# suite: Circuit.add measurement bookkeeping (model QV/Model/CircuitAdd.lean)
+
+
+def add_item_tokens(it):
+    if it[0] == "G":
+        return "G " + nl(sorted(it[2]))
+    _, ts, name, collapse, basis = it
+    rot = [q for q, b in zip(ts, basis) if b != "Z"]
+    return f"M {nl(ts)} {1 if name is not None else 0} {name if name is not None else 'x'} {int(collapse)} {nl(rot)}"
+
+
+def add_descr(it):
+    if it[0] == "G":
+        return f"{it[1]}{tuple(it[2])}"
+    _, ts, name, collapse, basis = it
+    extra = ("" if name is None else f",name={name}") + (",collapse" if collapse else "") + ("" if set(basis) == {"Z"} else f",basis={basis}")
+    return f"M{tuple(ts)}{extra}"
+
+
+def random_gate_item(rng, n):
+    k = min(rng.choice([1, 1, 2, 2, 3]), n)
+    qs = rng.sample(range(n), k)
+    kind = {1: ["H", "X", "RX", "noise", "U"], 2: ["CNOT", "CZ", "SWAP", "ctrl", "U"], 3: ["TOFFOLI", "ctrl", "U"]}[k]
+    return ("G", rng.choice(kind), qs)
+
+
+def add_suite(ctx):
+    rng = ctx.rng
+    cases = []
+    # (a) exhaustive: 2 qubits, every sequence of <= 3 (thorough: 4) calls over an alphabet of
+    # 3 gate placements and 8 measurements (ordered targets x collapse flag)
+    alpha = [("G", "H", [0]), ("G", "X", [1]), ("G", "CNOT", [0, 1])]
+    for ts in ([0], [1], [0, 1], [1, 0]):
+        for cl in (False, True):
+            alpha.append(("M", ts, None, cl, "Z" * len(ts)))
+    for L in range(1, (4 if ctx.thorough else 3) + 1):
+        for seq in itertools.product(alpha, repeat=L):
+            cases.append((2, list(seq)))
+    # (b) 3 qubits: two or three single-qubit measurements added in a row, then one gate that
+    # overlaps several of them (the removal loop must not skip), then possibly more
+    for ms in itertools.permutations(range(3), 2):
+        for gq in ([0, 1], [1, 2], [0, 2], [2, 0], [0, 1, 2], [2, 1, 0]):
+            for kind in (("CNOT", "ctrl", "U") if len(gq) == 2 else ("TOFFOLI", "ctrl")):
+                cases.append((3, [("M", [q], None, False, "Z") for q in ms] + [("G", kind, gq)]))
+    for ms in itertools.permutations(range(3), 3):
+        for gq in ([0, 1], [1, 2], [2, 0], [0, 1, 2]):
+            cases.append((3, [("M", [q], None, False, "Z") for q in ms] + [("G", "U", gq), ("M", [ms[0]], None, False, "Z")]))
+    # (c) random: up to 5 qubits, names (incl. clashes and default-looking names), bases, channels
+    for _ in range(900 if ctx.thorough else 300):
+        n = rng.randint(1, 5)
+        items = []
+        for _ in range(rng.randint(1, 10)):
+            if rng.random() < 0.45:
+                items.append(random_gate_item(rng, n))
+            else:
+                ts = rng.sample(range(n), rng.randint(1, min(n, 3)))
+                name = None if rng.random() < 0.6 else rng.choice(["a", "b", "a", "register1", "register2", "out"])
+                basis = "".join(rng.choice("ZZZXY") for _ in ts)
+                items.append(("M", ts, name, rng.random() < 0.2, basis))
+        if rng.random() < 0.4:
+            # several terminal measurements in a row followed by one wide gate
+            qs = rng.sample(range(n), min(n, rng.randint(2, 4)))
+            items += [("M", [q], None, False, "Z") for q in qs]
+            items.append(("G", "U" if len(qs) > 3 else rng.choice(["U", "ctrl"]), qs[:3] if rng.random() < 0.7 else qs[-3:]))
+        cases.append((n, items))
+    lines = [f"ADD {len(items)} " + " ".join(add_item_tokens(it) for it in items) for _, items in cases]
+    mouts = run_driver(lines, driver=DRIVER)
+    bad = sbad = 0
+    for (n, items), mout in zip(cases, mouts):
+        model = " ".join(mout.split())
+        descr = [add_descr(it) for it in items]
+        ctx.case(("add", n, tuple(descr)))
+        ctx.stat(f"add_len{min(len(items), 6)}")
+        try:
+            real = " ".join(H["observe_add"](n, items).split())
+        except Exception as e:  # noqa
+            real = f"{type(e).__name__}: {e}"
+        spec = " ".join(H["spec_add"](items).split())
+        if real.startswith("ERR"):
+            ctx.stat("add_rejected")
+        if len(ctx.samples) < 11 and len(items) >= 5 and real.count("M:") >= 2:
+            ctx.sample({"suite": "add", "n": n, "calls": descr, "bookkeeping": real})
+        if model != spec:
+            sbad += 1
+            ctx.log(f"C03 add: Lean model and python SPEC disagree on {descr}: {model!r} vs {spec!r}")
+        if real != model or real != spec:
+            bad += 1
+            nM = sum(1 for it in items if it[0] == "M")
+            key = "circuit-add:" + ("rejected" if real.startswith("ERR") or model.startswith("ERR") else "measurements" if real.split("|")[1:2] != model.split("|")[1:2] else "queue")
+            py = (replay_header() + f"# Circuit({n}).add of: " + "; ".join(descr) + f"\nitems = {items!r}\n"
+                  f"obs = ' '.join(observe_add({n}, items).split())\nexp = ' '.join(spec_add(items).split())\n"
+                  "# format: queue (M:targets:register:collapse / G:qubits) | positions of circuit.measurements | has_collapse | measurement_tuples\n"
+                  "assert obs == exp, (obs, exp)\n")
+            ctx.fail(key, f"Circuit.add bookkeeping after {descr}: a measurement must stay terminal iff no later gate touches one of its qubits ({nM} measurements)",
+                     py, expected=spec, observed=real, broken=["C03_corr_add"])
+    ctx.ob("C03_corr_add", bad == 0 and sbad == 0, "correspondence", f"{bad} disagreements, {sbad} model/spec" if bad or sbad else "")
+
+
+# ---------------------------------------------------------------------------
+# suite: execute_circuit_repeated (model QV/Model/Repeated.lean)
+
+
+def rep_plan_tokens(plan, status):
+    toks, mi = [], 0
+    for it in plan:
+        if it[0] == "G":
+            toks.append("G " + it[3])
+        elif it[0] == "M":
+            toks.append(f"M {nl(it[1])} {int(status[mi])}")
+            mi += 1
+        else:
+            toks.append(f"C {it[1]} {it[2]} 1 0 {it[3]} 0 0 0 -1 0 -1 0 0")
+    return toks
+
+
+def repeated_suite(ctx):
+    rng = ctx.rng
+    runs = []
+    target = 260 if ctx.thorough else 90
+    tries = 0
+    while len(runs) < target and tries < 20 * target:
+        tries += 1
+        n = rng.randint(1, 4)
+        dm = rng.random() < 0.4
+        plan, msizes = [], []
+        for _ in range(rng.randint(2, 7)):
+            r = rng.random()
+            if r < 0.4:
+                g, tok, (m, qs) = int_gate(rng, n)
+                plan.append(("G", m.tolist(), list(qs), tok))
+            elif r < 0.75 or not msizes:
+                ts = rng.sample(range(n), rng.randint(1, min(n, 3)))
+                plan.append(("M", ts, rng.random() < 0.5))
+                msizes.append(len(ts))
+            else:
+                mi = rng.randrange(len(msizes))
+                plan.append(("C", mi, rng.randrange(msizes[mi]), rng.randrange(n)))
+        if rng.random() < 0.5:
+            # consecutive terminal measurements made collapsing by ONE later gate
+            qs = rng.sample(range(n), min(n, 2))
+            for q in qs:
+                plan.append(("M", [q], False)); msizes.append(1)
+            if len(qs) == 2:
+                g, tok, (m, gq) = int_gate(rng, n, on=qs)
+                plan.append(("G", m.tolist(), list(gq), tok))
+        status = H["plan_status"](plan)
+        mts = [it[1] for it in plan if it[0] == "M"]
+        # terminal registers: a partition of an ordered subset of the free qubits
+        busy = {q for ts, st in zip(mts, status) if not st for q in ts}
+        if len(busy) != sum(len(ts) for ts, st in zip(mts, status) if not st):
+            continue
+        free = [q for q in range(n) if q not in busy]
+        if free and rng.random() < 0.8:
+            sub = rng.sample(free, rng.randint(1, len(free)))
+            r = rng.randint(1, min(3, len(sub)))
+            cuts = sorted(rng.sample(range(1, len(sub)), r - 1))
+            b = [0, *cuts, len(sub)]
+            for i in range(r):
+                plan.append(("M", sub[b[i]:b[i + 1]], False))
+        status = H["plan_status"](plan)
+        mts = [it[1] for it in plan if it[0] == "M"]
+        finals = [ts for ts, st in zip(mts, status) if not st]
+        if not any(status) or (not dm and not finals):
+            continue
+        if any(it[0] == "C" and not status[it[1]] for it in plan):
+            continue
+        psi = gi_state(rng, n, zeros=0.1)
+        nshots = rng.randint(1, 6)
+        log = []
+        base = support_chooser(rng)
+
+        def chooser(p_, n_, log=log, base=base):
+            out_ = base(p_, n_)
+            log.append(out_)
+            return out_
+
+        pl = [tuple(it[:3]) if it[0] == "G" else tuple(it) for it in plan]
+        try:
+            real, be = H["run_repeated"](n, dm, pl, psi, nshots, chooser)
+            asked, calls = be.asked, be.calls
+        except Exception as e:  # noqa
+            real, asked, calls = f"{type(e).__name__}: {e}", [], log
+        runs.append((n, dm, plan, pl, status, psi, nshots, real, asked, calls))
+    lines = []
+    for (n, dm, plan, pl, status, psi, nshots, real, asked, calls) in runs:
+        tape = [x for c_ in calls for x in c_]
+        toks = rep_plan_tokens(plan, status)
+        st = gi_tokens(np.outer(psi, psi.conj())) if dm else gi_tokens(psi)
+        lines.append(f"REP {int(dm)} {n} {nshots} {len(toks)} {' '.join(toks)} {nl(tape)} {st}")
+        lines.append(f"REPWF {len(toks)} {' '.join(toks)}")
+    mouts = run_driver(lines, driver=DRIVER)
+    bad = 0
+    for i, run in enumerate(runs):
+        (n, dm, plan, pl, status, psi, nshots, real, asked, calls) = run
+        mout, wf = mouts[2 * i], mouts[2 * i + 1].split()
+        parts = [x.strip() for x in mout.split("|")]
+        model = " | ".join(" ".join(x.split()) for x in parts[:3])
+        descr = [("G%s" % (tuple(it[2]),) if it[0] == "G" else "M%s%s" % (tuple(it[1]), "c" if it[2] else "") if it[0] == "M" else "RX(%d,pi*m%d[%d])" % (it[3], it[1], it[2])) for it in plan]
+        ctx.case(("rep", n, dm, tuple(descr), nshots))
+        ctx.stat("rep_" + ("dm" if dm else "sv"))
+        if any(it[0] == "C" for it in plan):
+            ctx.stat("rep_conditioned")
+        if sum(status) >= 2:
+            ctx.stat("rep_two_collapsing")
+        why = None
+        need = int(wf[1])
+        if wf[0] != "1":
+            why = "harness: plan not well-formed for the model"
+        elif " ".join(real.split()) != model:
+            why = f"reported samples / per-gate samples / frequencies differ: {real!r} vs model {model!r}"
+        elif parts[3] != "0" or len(calls) != nshots * need or any(len(c_) != 1 for c_ in calls):
+            why = f"the execution made {len(calls)} sampler calls, the model consumes {nshots}*{need}"
+        else:
+            # the probabilities given to the sampler at every draw = Born marginals of the model's state
+            mseen = [[[int(t) for t in v.split()] for v in sh.split(",")] for sh in parts[4].split(";")] if parts[4].strip() else []
+            flat_seen = [v for sh in mseen for v in sh]
+            if len(flat_seen) != len(asked):
+                why = f"{len(asked)} draws on the real code, {len(flat_seen)} in the model"
+            else:
+                for di, (pm, pr) in enumerate(zip(flat_seen, asked)):
+                    pm = np.asarray(pm, dtype=float)
+                    pr = np.asarray(pr, dtype=float)
+                    if pm.shape != pr.shape or pm.sum() <= 0 or not np.allclose(pm / pm.sum(), pr / pr.sum(), atol=1e-8):
+                        why = f"draw #{di} (shot {di // need}): sampler was given {pr.tolist()}, the state of this shot gives {(pm / max(pm.sum(), 1)).tolist()}"
+                        break
+        if len(ctx.samples) < 12 and i < 2:
+            ctx.sample({"suite": "repeated", "n": n, "density_matrix": dm, "circuit": descr, "nshots": nshots, "observed": real})
+        if why:
+            bad += 1
+            py = (replay_header() + "# circuit (qibo order): " + "; ".join(descr) + f"\nplan = {pl!r}\n"
+                  f"why = check_plan({n}, {dm}, plan, np.array({psi.tolist()}), {nshots}, Tape({calls!r}))\nassert why is None, why\n"
+                  f"obs, be = run_repeated({n}, {dm}, plan, np.array({psi.tolist()}), {nshots}, Tape({calls!r}))\n"
+                  "# rows of result.samples() | samples of every M gate in queue order | frequencies (dense)\n"
+                  f"assert ' '.join(obs.split()) == {model!r}, obs\n")
+            ctx.fail("repeated-execution:" + ("dm" if dm else "sv"), f"circuit {descr} (n={n}, dm={dm}, nshots={nshots}): {why}", py,
+                     expected=model, observed=real, broken=["C03_corr_repeated"])
+    ctx.ob("C03_corr_repeated", bad == 0, "correspondence", f"{bad} disagreements" if bad else "")
+
+
+# ---------------------------------------------------------------------------
+# suite: probabilities(qs) histories on results without a final state (model MeasureProbs.lean)
+
+
+def pop_tokens(op):
+    if op[0] == "probs":
+        return "4 " + nl(op[1])
+    return op_tokens(op)
+
+
+def probs_history_suite(ctx):
+    rng = ctx.rng
+    cases = []
+    kinds = ["noise", "collapse", "given"]
+    # (a) every ordered full list of the measured qubits first, then everything else (k <= 3)
+    for regs, n in (([[0, 1]], 3), ([[1, 0]], 2), ([[2], [0]], 3), ([[0, 1, 2]], 3), ([[2, 0], [1]], 3), ([[1], [2, 0]], 4)):
+        flat = [q for r in regs for q in r]
+        for first in itertools.permutations(flat):
+            if list(first) == flat and len(flat) > 2:
+                continue
+            later = [("probs", list(p_)) for k_ in range(len(flat), 0, -1) for p_ in itertools.permutations(flat, k_)]
+            rng.shuffle(later)
+            ops = [("probs", list(first))] + later[: (8 if ctx.thorough else 4)]
+            ops.insert(rng.randint(1, len(ops)), rng.choice(all_ops(len(regs))))
+            cases.append((n, regs, rng.choice(kinds), ops))
+    # (b) random histories mixing probabilities in permuted orders with samples / frequencies
+    for _ in range(160 if ctx.thorough else 60):
+        n = rng.randint(2, 4)
+        regs = rng.choice([l for l in layouts(n) if sum(map(len, l)) <= 3 or rng.random() < 0.3])
+        flat = [q for r in regs for q in r]
+        ops = []
+        for _ in range(rng.randint(2, 7)):
+            if rng.random() < 0.55:
+                full = rng.random() < 0.6
+                ops.append(("probs", rng.sample(flat, len(flat) if full else rng.randint(1, len(flat)))))
+            else:
+                ops.append(rng.choice(all_ops(len(regs))))
+        cases.append((n, regs, rng.choice(kinds), ops))
+    runs, lines = [], []
+    for n, regs, kind, ops in cases:
+        nshots = rng.randint(1, 12)
+        log, base = [], support_chooser(rng)
+
+        def chooser(p_, n_, log=log, base=base):
+            out_ = base(p_, n_)
+            log.append(out_)
+            return out_
+
+        try:
+            outs, rows, calls = H["run_probs_history"](n, regs, kind, nshots, ops, chooser)
+            err = None
+        except Exception as e:  # noqa
+            outs, rows, calls, err = [], [], log, f"{type(e).__name__}: {e}"
+        T = [int("".join(map(str, r)), 2) for r in rows]
+        runs.append((n, regs, kind, ops, nshots, outs, rows, calls, err))
+        lines.append(f"PROBH {len(regs)} " + " ".join(nl(r) for r in regs) + f" {0 if kind == 'given' else 1} {nl(T)} {len(ops)} " + " ".join(pop_tokens(o) for o in ops))
+    mouts = run_driver(lines, driver=DRIVER)
+    bad = 0
+    for run, mout in zip(runs, mouts):
+        (n, regs, kind, ops, nshots, outs, rows, calls, err) = run
+        model = [x.strip() for x in mout.split("|")]
+        ctx.case(("probh", n, tuple(map(tuple, regs)), kind, tuple(map(str, ops))))
+        ctx.stat(f"probh_{kind}")
+        flat = [q for r in regs for q in r]
+        if ops and ops[0][0] == "probs" and len(ops[0][1]) == len(flat) and ops[0][1] != flat:
+            ctx.stat("probh_first_call_full_permuted")
+        problem = None
+        if err:
+            problem = (0, ops[0], "no exception", err)
+        else:
+            spec = H["spec_probs_history"](regs, rows, ops)
+            for i, (op, got, exp, sp) in enumerate(zip(ops, outs, model, spec)):
+                if got != exp or got != sp:
+                    problem = (i, op, sp, got)
+                    break
+        if len(ctx.samples) < 14 and len(ops) >= 4 and ops[0][0] == "probs":
+            ctx.sample({"suite": "probabilities-history", "registers": regs, "kind": kind, "nshots": nshots, "history": [op_name(o) for o in ops]})
+        if problem:
+            bad += 1
+            i, op, exp, got = problem
+            key = "views:probabilities:from-samples:" + ("after-probabilities" if any(o[0] == "probs" for o in ops[:i]) else "first-call") if op[0] == "probs" else f"views:{op_name(op).split('(')[0]}:after-probabilities:{kind}"
+            py = (replay_header() + f"ops = {ops!r}\nouts, rows, calls = run_probs_history({n}, {regs!r}, {kind!r}, {nshots}, ops, Tape({calls!r}))\n"
+                  f"exp = spec_probs_history({regs!r}, rows, ops)\n"
+                  "# probabilities(qs) * nshots must be the number of reported rows whose bits on qs (in that order) spell each outcome\n"
+                  "assert outs == exp, [(i, ops[i], a, b) for i, (a, b) in enumerate(zip(outs, exp)) if a != b][:1]\n")
+            ctx.fail(key, f"{kind} result, registers {regs}, history {[op_name(o) for o in ops]}: call #{i} {op_name(op)} is not the view of the reported samples",
+                     py, expected=exp, observed=got, broken=["C03_corr_probs_history"])
+    ctx.ob("C03_corr_probs_history", bad == 0, "correspondence", f"{bad} disagreements" if bad else "")
+
+
+# ---------------------------------------------------------------------------
+# suite: sample_frequencies at exact multiples of the batch size (patched and TRUE constant)
+
+
+def batching_suite(ctx):
+    import qibo
+
+    rng = ctx.rng
+    true_B = qibo.get_batch_size()
+    cases = []
+    for B in (2, 3, 5, 8):
+        for nshots in (B - 1, B, B + 1, 2 * B - 1, 2 * B, 2 * B + 1, 3 * B):
+            cases.append((B, nshots, "patched"))
+    big = [true_B, 2 * true_B, true_B - 1, true_B + 1] if ctx.thorough else [true_B, 2 * true_B, rng.choice([true_B - 1, true_B + 1])]
+    for nshots in big:
+        cases.append((true_B, nshots, "true"))
+    lines, recs = [], []
+    for B, nshots, mode in cases:
+        k = rng.randint(1, 3)
+        p = np.zeros(2**k)
+        if mode == "true":
+            v0, v1 = rng.sample(range(2**k), 2)
+            p[v0], p[v1] = 0.75, 0.25
+            flip = rng.randrange(max(nshots - 1, 1))
+
+            def chooser(p_, n_, v0=v0, v1=v1, flip=flip):
+                # concentrated draws: all v0 except one v1 at a position that moves from batch to batch
+                out = [v0] * n_
+                if n_:
+                    out[flip % n_] = v1
+                return out
+        else:
+            p[:] = [rng.random() for _ in range(2**k)]
+            p[rng.randrange(2**k)] = 0.0
+            chooser = support_chooser(rng)
+        be = H["OracleBackend"](chooser)
+        old = qibo.get_batch_size()
+        try:
+            if mode == "patched":
+                qibo.set_batch_size(B)
+            assert qibo.get_batch_size() == B
+            fr = be.sample_frequencies(p / p.sum(), nshots)
+            err = None
+        except Exception as e:  # noqa
+            fr, err = None, f"{type(e).__name__}: {e}"
+        finally:
+            qibo.set_batch_size(old)
+        rle = []
+        for c_ in be.calls:
+            runs_ = []
+            for x in c_:
+                if runs_ and runs_[-1][0] == x:
+                    runs_[-1][1] += 1
+                else:
+                    runs_.append([x, 1])
+            rle.append(f"{len(runs_)} " + " ".join(f"{v} {cnt}" for v, cnt in runs_) if runs_ else "0")
+        lines.append(f"SFREQRLE {k} {len(be.calls)} " + " ".join(rle))
+        lines.append(f"BATCH {nshots} {B}")
+        recs.append((B, nshots, mode, k, p, fr, err, [len(c_) for c_ in be.calls]))
+    outs = run_driver(lines, driver=DRIVER)
+    bad = 0
+    for i, (B, nshots, mode, k, p, fr, err, sizes) in enumerate(recs):
+        model_fr = [int(t) for t in outs[2 * i].split("|")[0].split()]
+        model_sizes = [int(t) for t in outs[2 * i + 1].split()]
+        ctx.case(("batching", B, nshots, mode))
+        ctx.stat(f"batching_{mode}")
+        why = None
+        try:
+            obs = None if err else H["_dense"](fr, k, False) if nshots else [0] * 2**k
+        except ValueError as e:
+            obs, err = None, str(e)
+        if err:
+            why = err
+        elif sizes != model_sizes:
+            why = f"sample_shots was called with sizes {sizes}, batchSizes gives {model_sizes}"
+        elif obs != model_fr:
+            why = f"frequencies {obs} are not the histogram {model_fr} of the drawn samples"
+        elif sum(obs) != nshots:
+            why = f"frequencies sum to {sum(obs)} instead of {nshots}"
+        if why:
+            bad += 1
+            setb = f"qibo.set_batch_size({B})\n" if mode == "patched" else f"assert qibo.get_batch_size() == {B}\n"
+            py = (replay_header() + f"import qibo\n{setb}"
+                  f"p = np.array({p.tolist()}); be = OracleBackend(lambda p_, n_: [int(np.argmax(p_))] * n_)\n"
+                  f"fr = be.sample_frequencies(p / p.sum(), {nshots})\n"
+                  f"assert sum(fr.values()) == {nshots} and dict(fr) == {{int(np.argmax(p)): {nshots}}}, fr\n")
+            ctx.fail("bits:sample_frequencies", f"sample_frequencies(nshots={nshots}) with SHOT_BATCH_SIZE={B} ({mode} constant): {why}", py,
+                     expected=model_fr, observed=why, broken=["C03_corr_batching"])
+    # the unpatched sampler with the true constant: a one-hot distribution must give {v: nshots}
+    nb = H["NumpyBackend"]()
+    state0 = np.random.get_state()
+    try:
+        for nshots in ([true_B, 2 * true_B] if not ctx.thorough else [true_B, 2 * true_B, 3 * true_B, true_B + 1]):
+            for path in ("sample_frequencies", "result.frequencies"):
+                ctx.case(("batching-real", nshots, path))
+                ctx.stat("batching_unpatched")
+                v = rng.randrange(4)
+                if path == "sample_frequencies":
+                    p = np.zeros(4); p[v] = 1.0
+                    try:
+                        fr = nb.sample_frequencies(p, nshots)
+                        got = {int(k_): int(c_) for k_, c_ in fr.items()}
+                    except Exception as e:  # noqa
+                        got = f"{type(e).__name__}: {e}"
+                    py = (replay_header() + f"p = np.zeros(4); p[{v}] = 1.0\nfr = NumpyBackend().sample_frequencies(p, {nshots})\n"
+                          f"assert {{int(k): int(c) for k, c in fr.items()}} == {{{v}: {nshots}}}, fr\n")
+                else:
+                    from qibo import Circuit, gates
+                    c = Circuit(2)
+                    if v & 2:
+                        c.add(gates.X(0))
+                    if v & 1:
+                        c.add(gates.X(1))
+                    c.add(gates.M(0, 1))
+                    try:
+                        res = nb.execute_circuit(c, nshots=nshots)
+                        got = {int(k_): int(c_) for k_, c_ in res.frequencies(binary=False).items()}
+                        rows_n = len(res.samples())
+                        if rows_n != nshots:
+                            got = {"rows": rows_n}
+                    except Exception as e:  # noqa
+                        got = f"{type(e).__name__}: {e}"
+                    xs = "".join(f"c.add(gates.X({q}))\n" for q in (0, 1) if v & (2 >> q))
+                    py = (replay_header() + f"c = Circuit(2)\n{xs}c.add(gates.M(0, 1))\nres = NumpyBackend().execute_circuit(c, nshots={nshots})\n"
+                          f"fr = res.frequencies(binary=False)\nassert {{int(k): int(c) for k, c in fr.items()}} == {{{v}: {nshots}}}, fr\n"
+                          f"assert len(res.samples()) == {nshots}\n")
+                if got != {v: nshots}:
+                    bad += 1
+                    ctx.fail("bits:sample_frequencies", f"{path} with nshots={nshots} (multiple of SHOT_BATCH_SIZE={true_B}) on a deterministic state gives {got}", py,
+                             expected={v: nshots}, observed=got, broken=["C03_corr_batching"])
+    finally:
+        np.random.set_state(state0)
+    ctx.ob("C03_corr_batching", bad == 0, "correspondence", f"{bad} disagreements" if bad else "")
+
 # ---------------------------------------------------------------------------
 # direct property search with the real (unpatched) sampler
 
@@ -1365,6 +2083,10 @@ def run(ctx):
     bits_suite(ctx)
     views_suite(ctx)
     collapse_suite(ctx)
+    add_suite(ctx)
+    repeated_suite(ctx)
+    probs_history_suite(ctx)
+    batching_suite(ctx)
     real_sampler_search(ctx)
     ctx.notes.append(
         "probabilities: every ordered qubit list for n<=4 (+ random n<=6/7) on Gaussian-integer states and non-Hermitian integer density matrices, "
@@ -1372,7 +2094,12 @@ def run(ctx):
         "views: every partition of every ordered qubit sub-list into <=3 registers for n<=4 with random accessor histories, all histories of length <=2 "
         "on three asymmetric layouts, draws and shuffle controlled and passed to the Lean state machine; collapse: projection primitives on all sorted "
         "subsets n<=4, recorded bit order for every ordered target list and basis state n<=3, random circuits with explicit/implicit collapse, "
-        "conditioned RX gates, repeated execution; direct search with the unpatched seeded sampler")
+        "conditioned RX gates, repeated execution; direct search with the unpatched seeded sampler; "
+        "Circuit.add bookkeeping: every sequence of <=3 (thorough 4) calls over 11 gate/measurement placements on 2 qubits, "
+        "consecutive measurements hit by one gate on 3 qubits, random sequences with names/bases/channels (n<=5); "
+        "execute_circuit_repeated: random circuits with collapsing/terminal measurements and conditioned gates (sv and dm), rows, per-gate "
+        "samples, frequencies, draw count and Born probabilities at every draw; probabilities(qs) histories (every full permutation first) on "
+        "noise / collapse / samples= results; sample_frequencies at nshots = B, 2B, B+-1 with patched B and with the true 2**18")
     ctx.assumptions += [
         "np.random.choice returns i.i.d. indices of non-zero probability (statistical unbiasedness of the sampler is assumed, not proved)",
         "bit-flip noise (p0/p1 != 0) is outside the property's quantifier and is not exercised",
